@@ -4,6 +4,7 @@ import NipyVerif.Props.C07Csv
 import NipyVerif.Props.C07Par
 import NipyVerif.Props.C07Names
 import NipyVerif.Props.C07Source
+import NipyVerif.Props.C07Drift
 #print axioms NipyVerif.C07.sampleCondition_eq
 #print axioms NipyVerif.C07.sample_superposition
 #print axioms NipyVerif.C07.sample_sum_of_single_events
@@ -61,3 +62,8 @@ import NipyVerif.Props.C07Source
 #print axioms NipyVerif.C07.name_formats_as_modelled
 #print axioms NipyVerif.C07.grid_source_as_modelled
 #print axioms NipyVerif.C07.drift_source_as_modelled
+#print axioms NipyVerif.C07.cosine_source_as_modelled
+#print axioms NipyVerif.C07.cosine_drift_orthogonal_to_constant
+#print axioms NipyVerif.C07.cosine_drift_orthonormal
+#print axioms NipyVerif.C07.cosine_drift_gram
+#print axioms NipyVerif.C07.cosine_order_le
